@@ -12,6 +12,11 @@ def F(x):
     return {'t': 'float', 'bits': struct.pack('>d', float(x)).hex()}
 
 
+def NP(dtype, v):
+    """A numpy scalar of the given dtype."""
+    return {'t': 'np', 'dtype': dtype, 'v': v}
+
+
 def FB(hexbits):
     return {'t': 'float', 'bits': hexbits}
 
